@@ -1015,7 +1015,8 @@ def run(pid, tier, replay=None):
             g3 = w3.make_genesis(ts=5000)
             run_ = node_drv.NodeRun(w3, g3, peers=nodechk.PEERS, tid=900000 + i, clock0=5000)
             try:
-                nrec = nodechk.NodeRec(run_, rng, fetch_p=0.5)
+                nrec = nodechk.NodeRec(run_, rng, fetch_p=0.5 if i % 2 else 0.0)
+                nrec.advertise_p = 0.0 if i % 2 else 0.6
                 rt = RandomTree(w3, nrec, rng, nkeys=3, p_mut=0.4)
                 lab = []
                 for k in range(14 if quick else 28):
